@@ -598,7 +598,9 @@ class SymEx:
         if m[0] == 'struct' and m[1].startswith('?sym:'):
             return SYM('%s.0[%d,%d]' % (m[1][5:], r, c))
         if m[0] == 'sym':
-            return SYM('%s[%d,%d]' % (m[1], r, c))
+            # a symbolic Transform2 (newtype) is identified with its inner matrix `.0`
+            base = m[1] if m[1].endswith('.0') else m[1] + '.0'
+            return SYM('%s[%d,%d]' % (base, r, c))
         return APP('elem%d%d' % (r, c), m)
 
     def point_xy(self, st, p):
